@@ -95,7 +95,8 @@ PROPS = {
         "assumptions": HIST_ASSUME + ["encoding/json round-trips the fInfo struct (integers and one string): exercised with the real Marshal/Unmarshal, not proved"],
     },
     "C13": {
-        "theorems": ["rollback_footprint", "cleanup_uses_remove_only", "rollback_leaves_unrelated_entries_alone", "foreign_entry_survives", "unnamed_file_keeps_content", "foreign_backup_content_survives"],
+        "theorems": ["rollback_footprint", "cleanup_uses_remove_only", "rollback_leaves_unrelated_entries_alone", "foreign_entry_survives", "unnamed_file_keeps_content", "foreign_backup_content_survives",
+                     "rollback_changes_named_entries_only", "foreign_file_below_replaced_file_survives"],
         "streams": [{"name": "hist", "quick": ["-n", "300"], "thorough": ["-n", "20000"]}],
         "assumptions": HIST_ASSUME,
     },
